@@ -1,3 +1,4 @@
+import JadeModel.Proofs.SystemGen
 import JadeModel.Proofs.SystemGate
 import JadeModel.Proofs.SystemRows
 import JadeModel.Props.C20
